@@ -11,7 +11,12 @@ META = {
             "that refusals leave nothing behind. On the real code, seeded random histories on two replicating servers mix valid and "
             "deliberately invalid creates / modifies / batch modifies (missing required, not allowed, too many values, wrong syntax, "
             "unknown class or attribute), schema additions through real attributetype/classtype entries, uses of the new class, "
-            "recycle/revive, and concurrent individually-valid edits merged by replication; after every operation all harness-made "
+            "recycle/revive, and concurrent individually-valid edits merged by replication. Because classtype / attributetype entries "
+            "only enter the schema in force below domain level 1.11 (from then on the schema is compiled in), part of the histories "
+            "run on servers kept at DOMAIN_LEVEL_14: there four attributes (single/multi, utf8/uint32/iname) and two classes with their "
+            "own `must` and `may` are added at run time and committed, and creates / modifies / batch modifies of entries of those classes "
+            "omit or purge the required attribute, add an attribute no class allows, give two values to a single-valued one, store a wrong "
+            "syntax, etc. After every operation all harness-made "
             "entries, and after every schema change or replication all stored entries (built-in included), are judged by the TLA+ Valid "
             "against the schema projected from each server's own schema tables - independent of Entry::validate.",
     "note": "value-level well-formedness beyond the syntax tag (e.g. a valid e-mail address string) is not re-implemented in TLA+; "
@@ -36,8 +41,8 @@ def run(tier, replay):
     if replay:
         lib.kverif("store", ["c15", "--out", obs, "--replay", replay], timeout=3000)
     else:
-        lib.kverif("store", ["c15", "--out", obs, "--seed", lib.seed(), "--histories", 4 if tier == "quick" else 20,
-                             "--len", 32 if tier == "quick" else 80], timeout=3000)
+        lib.kverif("store", ["c15", "--out", obs, "--seed", lib.seed(), "--histories", 3 if tier == "quick" else 14,
+                             "--dyn-histories", 2 if tier == "quick" else 10, "--len", 34 if tier == "quick" else 80], timeout=3000)
     tv = lib.trace_validate("KDirSchemaTrace", obs, PID, timeout=3000, xmx="8g")
     lines = lib.read_lines(obs)
     recs = [json.loads(l) for l in lines]
@@ -57,7 +62,9 @@ def run(tier, replay):
         for s in ("A", "B"):
             ents_judged += len(r["st"][s]["ents"])
         if r["a"] == "op":
-            k = f"{r['op']['op']}:{r.get('defect', '') if r['op']['op'] in ('create', 'modify') else ''}:{r['res']}"
+            o = r["op"]
+            kind = "create3" if (o["op"] == "create" and o.get("kind", 0) % 4 == 3) else o["op"]
+            k = f"{kind}:{r.get('defect', '') if o['op'] in ('create', 'modify', 'cmodify') else ''}:{r['res']}"
             ops[k] = ops.get(k, 0) + 1
     small = []
     for r in lib.sample(lines):
@@ -71,6 +78,8 @@ def run(tier, replay):
         "operations_observed": len([r for r in recs if r["a"] == "op"]),
         "entry_validity_judgements": ents_judged,
         "schema_projections_logged": len([r for r in recs if "schema" in r]),
+        "histories_at_level_14_with_runtime_classes": len([r for r in recs if r["a"] == "reset" and r.get("dyn") == 1]),
+        "runtime_class_requests": {k: v for k, v in ops.items() if k.startswith("cmodify") or k.startswith("create3")},
         "conflict_entries_observed": sum(1 for r in recs for s in ("A", "B") for e in r["st"][s]["ents"] if e["live"] == "conflict"),
         "op_defect_result_counts": ops,
         "samples": small, "l2_drift": len(tv["drift"]),
